@@ -171,6 +171,8 @@ def check_case(ctx, sf, spec, backend, h, plan, seed, order="2h", share=False):
                 ctx.fail(f"{backend}:{key}", f"{backend} hbar={h}: {what} of mode {m} / sqrt(hbar/2) differ: {d}", rp)
                 break
     for key in ref["first"]:
+        if key == "weights" and max(ref.get("kappa", 1.0), out.get("kappa", 1.0)) > KAPPA_MAX:
+            continue      # weights of 1e10 after post-selection: products of exponentials, themselves ill-conditioned
         d = hb.answers_differ(out["first"][key], ref["first"][key], 1e-8 if backend == "bosonic" else TOL)
         if d:
             ctx.fail(f"{backend}:state-{key}", f"{backend} hbar={h}: state {key} do not scale with hbar: {d}", rp)
@@ -248,6 +250,86 @@ def utils_states_check(ctx, sf, rng):
             ctx.fail(f"utils.states:{cls}", f"utils.states {cls}{pars} at hbar={h} differs from the prepared state: {d}", rp)
 
 
+def bosonic_prep_units_check(ctx, sf, rng):
+    """`Bosonic(weights, means, covs)` documents no units.  Exercise both candidate conventions (data in hbar = 2 units,
+    as the back end uses them today / data in units of the current hbar like `Gaussian(V, r)`): one of them has to give
+    hbar-independent physics; which one is recorded in the input distribution, not judged."""
+    h = rng.choice(hb.HBARS)
+    s = hb.s_of(h)
+    k = rng.randint(1, 3)
+    w = [round(rng.uniform(0.2, 1.0), 2) for _ in range(k)]
+    w = [x / sum(w) for x in w]
+    mu = [[round(rng.uniform(-1, 1), 2), round(rng.uniform(-1, 1), 2)] for _ in range(k)]
+    cov = []
+    for _ in range(k):
+        a, d, b = 1 + rng.choice([0.0, 0.5, 1.0]), 1 + rng.choice([0.0, 0.5]), rng.choice([0.0, 0.25])
+        cov.append([[a, b], [b, d]])
+    n = rng.choice([1, 2])
+    tail = [dict(cls="Sgate", regs=[0], pars=[0.2, 0.3]), dict(cls=rng.choice(["Xgate", "Zgate"]), regs=[0], pars=[0.4])]
+    if n == 2:
+        tail.append(dict(cls="BSgate", regs=[0, 1], pars=[0.6, 0.2]))
+    plan = [dict(m="means"), dict(m="covs"), dict(m="mean_photon", mode=0), dict(m="fidelity_vacuum"),
+            dict(m="quad_expectation", mode=0, phi=0.4), dict(m="wigner", mode=0, x=[0.3, -0.8], p=[0.1, 0.9])]
+    seed = 1
+
+    def spec_with(mu_, cov_):
+        return dict(n=n, ops=[dict(cls="Bosonic", regs=[0], pars=[w, mu_, cov_])] + tail)
+    ref = collect(sf, spec_with(mu, cov), "bosonic", 2.0, plan, seed)
+    ctx.oracle_cases += 1
+    if "raised" in ref:
+        ctx.tally("bosonic-prep-units:raised:" + ref["raised"])
+        return
+    verdict = []
+    for name, sp in (("hbar2-units", spec_with(mu, cov)),
+                     ("current-hbar-units", spec_with((np.array(mu) * s).tolist(), (np.array(cov) * s * s).tolist()))):
+        out = collect(sf, sp, "bosonic", h, plan, seed)
+        ok = "raised" not in out and not any(hb.answers_differ(a, b, 1e-8) for a, b in zip(out["answers"], ref["answers"]))
+        if ok:
+            verdict.append(name)
+    ctx.tally("bosonic-prep-units:" + ("+".join(verdict) or "none"))
+    rp = dict(kind="bosonic-prep", w=w, mu=mu, cov=cov, n=n, hbar=h)
+    ctx.count("oracle:bosonic-prep-units", rp, True)
+    if not verdict:
+        ctx.fail("bosonic:Bosonic-prep:no-consistent-units", f"Bosonic(weights, means, covs) at hbar={h}: neither data in hbar=2 "
+                 f"units nor data in units of the current hbar reproduces the hbar=2 results", rp)
+
+
+def thewalrus_hypothesis_check(ctx, sf, rng):
+    """hypothesis of `observables_invariant`: the thewalrus routines taking (mu, cov, hbar) depend on them only through
+    (mu / sqrt(hbar/2), cov / (hbar/2))"""
+    import thewalrus.quantum as twq
+    h = rng.choice(hb.HBARS)
+    s = hb.s_of(h)
+    n = rng.choice([1, 2])
+    V, r = hb.rand_cov(rng, n)
+    V, r = np.array(V), np.array(r)
+    V2, r2 = hb.rand_cov(rng, n)
+    V2, r2 = np.array(V2), np.array(r2)
+    nn = [rng.choice([0, 1, 2]) for _ in range(n)]
+    table = [
+        ("probabilities", lambda mu, cov, hh: twq.probabilities(mu, cov, 3, hbar=hh)),
+        ("density_matrix_element", lambda mu, cov, hh: twq.density_matrix_element(mu, cov, nn, nn, hbar=hh)),
+        ("density_matrix", lambda mu, cov, hh: twq.density_matrix(mu, cov, hbar=hh, normalize=True, cutoff=3)),
+        ("photon_number_expectation", lambda mu, cov, hh: twq.photon_number_expectation(mu, cov, list(range(n)), hbar=hh)),
+        ("photon_number_squared_expectation",
+         lambda mu, cov, hh: twq.photon_number_squared_expectation(mu, cov, list(range(n)), hbar=hh)),
+        ("fidelity", lambda mu, cov, hh: twq.fidelity(mu, cov, r2 * math.sqrt(hh / 2), V2 * (hh / 2), hbar=hh)),
+    ]
+    for name, fn in table:
+        ctx.oracle_cases += 1
+        ctx.tally("hypothesis:thewalrus:" + name)
+        try:
+            a = hb._arr(np.asarray(fn(r * s, V * s * s, h)))
+            b = hb._arr(np.asarray(fn(r, V, 2.0)))
+        except Exception as e:  # noqa: BLE001
+            ctx.fail(f"hypothesis:thewalrus:{name}", f"thewalrus.quantum.{name} raised {type(e).__name__}", dict(kind="thewalrus"))
+            continue
+        d = hb.answers_differ(a, b, 1e-6 if name == "fidelity" else 1e-8)     # fidelity goes through sqrtm
+        if d:
+            ctx.fail(f"hypothesis:thewalrus:{name}", f"thewalrus.quantum.{name}(mu, cov, hbar={h}) is not a function of the "
+                     f"normalised pair: {d}", dict(kind="thewalrus", fn=name, hbar=h, V=V.tolist(), r=r.tolist()))
+
+
 def oracle(ctx, sf):
     rng = ctx.rng
     plans = dict(gaussian=(8, 16), bosonic=(6, 12))
@@ -277,6 +359,10 @@ def oracle(ctx, sf):
             check_case(ctx, sf, spec, backend, h, plan, seed, order, share)
     for _ in range(ctx.n(3, 30)):
         utils_states_check(ctx, sf, rng)
+    for _ in range(ctx.n(6, 60)):
+        bosonic_prep_units_check(ctx, sf, rng)
+    for _ in range(ctx.n(6, 60)):
+        thewalrus_hypothesis_check(ctx, sf, rng)
 
 
 # ---------------------------------------------------------------------------------------------- correspondence
@@ -294,13 +380,42 @@ def correspondence(ctx, sf):
         mu, V = us.coherent_state(r, phi, basis="gaussian", hbar=h)
         ucases.append((dict(op="hbar.utils", s=hc.fr(math.sqrt(h / 2)), re=hc.fr(a.real), im=hc.fr(a.imag)),
                        [float(mu[0]), float(mu[1]), float(V[0, 0]), float(V[1, 1]), float(V[0, 1])], dict(hbar=h, r=r, phi=phi)))
-    answers = ctx.lean([c[0] for c in fcases + rcases + scases + ucases])
+    dcases = hc.decomp_cases(ctx, sf, ctx.n(42, 420))
+    bcases = hc.bstate_cases(ctx, sf, ctx.n(105, 1050))
+    qcases = hc.fockquad_cases(ctx, sf, ctx.n(70, 700))
+    answers = ctx.lean([c[0] for c in fcases + rcases + scases + ucases + dcases + bcases + qcases])
+    k0 = len(fcases) + len(rcases) + len(scases) + len(ucases)
+    for j, (req, real, case) in enumerate(dcases):
+        model = answers[k0 + j]
+        ctx.corr_cases += 1
+        ctx.count("corr:decompose-tail", case, case["hbar"] != 2 and any(case["r"]))
+        ctx.tally("corr:decompose-tail:gates", len(real))
+        if isinstance(model, dict) or not hc.calls_equal(model, real):
+            ctx.disagree("Hbar.gaussianDecompDisp vs Gaussian._decompose displacement tail", case, str(model)[:400], str(real)[:400])
+    k0 += len(dcases)
+    for j, (req, real, case) in enumerate(bcases):
+        model = answers[k0 + j]
+        ctx.corr_cases += 1
+        ctx.count(f"corr:bosonic-state:k={case['k']}", case, case["hbar"] != 2 and case["k"] >= 2)
+        d = "model error" if isinstance(model, dict) else hc.banswers_equal(model, real)
+        if d:
+            ctx.disagree("Hbar.bMeanPhoton/bDisplacement/bQuad/bRedIdx vs BaseBosonicState methods", case, str(d)[:300], str(real)[:300])
+    k0 += len(bcases)
+    for j, (req, real, case) in enumerate(qcases):
+        model = answers[k0 + j]
+        ctx.corr_cases += 1
+        ctx.count(f"corr:fock-quad:D={case['D']}", case, case["hbar"] != 2)
+        ok = not isinstance(model, dict) and abs(hc.unfr(model[0]) - real[0]) <= 1e-9 * max(1, abs(real[0])) \
+            and abs(hc.unfr(model[1]) - real[1]) <= 1e-9 * max(1, abs(real[1]))
+        if not ok:
+            ctx.disagree("Hbar.fockQuad vs BaseFockState.quad_expectation", case, str(model)[:200], str(real)[:200])
     k = 0
     for req, real, case in fcases:
         model = answers[k]; k += 1
         ctx.corr_cases += 1
         nt = any(o["cls"] != "free" for o in case["ops"]) and case["hbar"] != 2
-        ctx.count(f"corr:frontend:hbar={case['hbar']}", case, nt, sample=case)
+        ctx.count(f"corr:frontend:hbar={case['hbar']}" + (":built-at-other-hbar" if case["hbar_build"] != case["hbar"] else ""),
+                  case, nt, sample=case)
         for o in case["ops"]:
             ctx.tally("corr:op:" + o["cls"] + (":dagger" if o.get("dagger") else ""))
         if isinstance(model, dict) or not hc.calls_equal(model, real):
@@ -351,8 +466,8 @@ def _replay(ctx, sf, rp):
     if rp["kind"] == "twohbar":
         check_case(ctx, sf, rp["spec"], rp["backend"], rp["hbar"], rp["plan"], rp.get("seed", 0), rp.get("order", "2h"),
                    rp.get("share", False))
-    elif rp["kind"] == "utils":
-        pass
+    elif rp["kind"] in ("utils", "bosonic-prep", "thewalrus"):
+        pass        # regenerated from the seed by the run itself
     return len(ctx.failures) > n0
 
 
